@@ -246,6 +246,152 @@ def name_pool(rng, n, kw_pool, maxlen):
     return names
 
 
+# ------------------------------------------------------------------------------------------------ white-space family
+# Names that differ from a valid identifier only by white space / control characters (str.isspace() characters: what a
+# reader of the written text skips between tokens).  "depot\n" is NOT an identifier; whatever the writer chooses for it
+# must be one, and must differ from the names chosen for "depot", "depot_", "depot\r" ...
+WS_ASCII = ["\n", "\r", "\t", " ", "\x0b", "\x0c", "\x1c", "\x1d", "\x1e", "\x1f", "\r\n"]
+WS_WIDE = ["\x85", "\xa0", "\u2028", "\u2029"]          # outside the (ASCII) Coq model: judged by the oracle only
+WS_SHAPES = ["trail", "lead", "embed", "trail2", "both", "only", "empty", "only2"]
+WS_KINDS = ["type", "fluent", "action", "object", "parameter", "variable"]
+
+
+def ws_shape(base, ws, shape, ws2):
+    if shape == "trail":
+        return base + ws
+    if shape == "lead":
+        return ws + base
+    if shape == "embed":
+        k = max(1, len(base) // 2)
+        return base[:k] + ws + base[k:]
+    if shape == "trail2":
+        return base + ws + ws2
+    if shape == "both":
+        return ws2 + base + ws
+    if shape == "only":
+        return ws
+    if shape == "only2":
+        return ws + ws2
+    return ""
+
+
+def ws_specs(rng, k, kw_pool, existing, chars):
+    """[(kind, name)]: names of the family for problem number k, each followed by its twins (names whose cleaned /
+    mangled / tokenised forms coincide with it).  The first name follows a schedule (every character x shape x kind
+    comes up), the others are random with a bias to a single trailing line break."""
+    idents = [n for n in existing if re.fullmatch(r"[A-Za-z][A-Za-z0-9_]*", n)]
+    specs = []
+    for j in range(2):
+        if j == 0:
+            ws = chars[k % len(chars)]
+            shape = WS_SHAPES[(k // len(chars)) % len(WS_SHAPES)]
+        else:
+            ws = "\n" if (rng.random() < 0.4 and "\n" in chars) else rng.choice(chars)
+            shape = "trail" if rng.random() < 0.45 else rng.choice(WS_SHAPES)
+        ws2 = ws if rng.random() < 0.5 else rng.choice(chars)
+        r = rng.random()
+        if r < 0.35 and idents:
+            base = rng.choice(idents)                      # twin of an element the problem already has
+        elif r < 0.55:
+            base = rng.choice(kw_pool)                     # "and\n", "Action\t": must not come out as the keyword
+            base = rng.choice([base, base.capitalize(), base.upper()])
+        else:
+            base = rng.choice(["depot", "Depot", "d", "x", "o", "b_1", "B", "aB", "x_", "o_0"])
+        name = ws_shape(base, ws, shape, ws2)
+        kind = WS_KINDS[(k + j) % len(WS_KINDS)] if j == 0 else rng.choice(WS_KINDS)
+        specs.append((kind, name))
+        twins = []
+        if base not in existing:
+            twins.append(base)
+        other = rng.choice(chars)
+        twins.append(rng.choice([ws_shape(base, other, shape, ws2),          # "depot\r" next to "depot\n"
+                                 mangle_like(name, False, False),            # "depot_"
+                                 mangle_like(name, True, True),
+                                 mangle_like(name, False, False) + "_0",
+                                 "".join(name.split()),                      # the token a reader sees
+                                 base + "_", "o_" + base, name.lower(), name.upper()]))
+        for t in twins:
+            specs.append((kind if rng.random() < 0.5 else rng.choice(WS_KINDS), t))
+    out, seen = [], set()
+    for kind, n in specs:
+        if (kind, n) not in seen:
+            seen.add((kind, n))
+            out.append((kind, n))
+    return out
+
+
+def add_ws_elements(rng, b, specs):
+    """Adds one element of the requested kind per name to the built problem (extra types with one object each, fluents,
+    actions, objects, parameters of an extra action, quantifier variables).  A name the problem refuses (already used and
+    error_used_name set) is left out."""
+    import unified_planning as up
+    from unified_planning.model import Object, Fluent, InstantaneousAction, Variable
+    p, env = b.p, b.env
+    tm, em = env.type_manager, env.expression_manager
+    f0 = p.fluents[0]
+    t0 = b.types[0]
+    probe = None                                            # unary fluent for the quantifier variables
+    placed = []
+    fresh = [0]
+
+    def fresh_name(prefix):
+        while True:
+            fresh[0] += 1
+            n = "%s%d" % (prefix, fresh[0])
+            if not p.has_name(n):
+                return n
+
+    params, variables = [], []
+    for kind, name in specs:
+        try:
+            if kind == "type":
+                # add_object registers the object before the type: a refused type would leave an orphan object
+                if any(t.name == name for t in p.user_types) or (p.has_name(name) and env.error_used_name):
+                    continue
+                t = tm.UserType(name, rng.choice(b.types) if (b.types and rng.random() < 0.3 and
+                                                                any(x.father is not None for x in b.types)) else None)
+                p.add_object(Object(fresh_name("wo"), t, env))
+                if t not in p.user_types:
+                    continue
+                b.types.append(t)
+            elif kind == "fluent":
+                fl = Fluent(name, tm.BoolType(), environment=env)
+                p.add_fluent(fl, default_initial_value=False)
+            elif kind == "action":
+                a = InstantaneousAction(name, _env=env)
+                a.add_effect(f0(), True)
+                p.add_action(a)
+            elif kind == "object":
+                p.add_object(Object(name, rng.choice(b.types), env))
+            elif kind == "parameter":
+                if name in params:
+                    continue
+                params.append(name)
+            else:
+                variables.append(name)
+            placed.append((kind, name))
+        except Exception:
+            if kind in ("parameter", "variable"):
+                raise
+            continue
+    if params or variables:
+        try:
+            a = InstantaneousAction(fresh_name("wa"), _parameters=dict((x, rng.choice(b.types)) for x in params), _env=env)
+            a.add_effect(f0(), True)
+            if variables:
+                probe = Fluent(fresh_name("wf"), tm.BoolType(), _signature=[up.model.Parameter(rng.choice(params + ["q"]), t0, env)],
+                               environment=env)
+                p.add_fluent(probe, default_initial_value=False)
+                for vn in variables:
+                    v = Variable(vn, t0, env)
+                    body = em.FluentExp(probe, [em.VariableExp(v)])
+                    a.add_precondition(em.Exists(body, v) if rng.random() < 0.5 else em.Forall(body, v))
+            p.add_action(a)
+        except Exception:
+            placed = [x for x in placed if x[0] not in ("parameter", "variable")]
+    return placed
+
+
 # ------------------------------------------------------------------------------------------------ problems
 class Built:
     pass
@@ -274,7 +420,7 @@ def keyword_variants(rng, profile, k):
     return out
 
 
-def build_problem(rng, kw_pool, thorough, profile=()):
+def build_problem(rng, kw_pool, thorough, profile=(), ws_chars=None, k=0):
     """A small problem whose identifiers come from one adversarial pool.  `profile` lists the problem features that
     decide which conditional keyword tables apply (events, processes, durative_actions, trajectory_constraints,
     contingent); some elements are named exactly like conditionally reserved words."""
@@ -378,6 +524,12 @@ def build_problem(rng, kw_pool, thorough, profile=()):
     b = Built()
     b.p, b.env, b.pool, b.types, b.shared, b.temporal = p, env, pool, types, shared, temporal
     b.profile, b.forced = tuple(sorted(profile)), forced
+    b.ws = []
+    if ws_chars:
+        # white-space family: elements of every kind whose names differ from identifiers only by white space / control
+        # characters, next to twins with the same cleaned name
+        b.ws = add_ws_elements(rng, b, ws_specs(rng, k, kw_pool, problem_names(p), ws_chars))
+        b.pool = pool + [n for _, n in b.ws if n not in pool]
     return b
 
 
@@ -456,6 +608,40 @@ PDDL_ID = re.compile(r"[a-zA-Z][a-zA-Z0-9_-]*")
 ANML_ID = re.compile(r"[a-zA-Z][a-zA-Z0-9_]*")
 
 
+def token_form(name, fold_case):
+    """What a reader of the written text sees of a name: white space separates tokens and is not part of them; PDDL
+    does not distinguish case."""
+    t = " ".join(name.split())
+    return t.lower() if fold_case else t
+
+
+def describe(item):
+    return "%s %r" % (type(item).__name__, getattr(item, "name", None))
+
+
+def failure_tags(bad, names=()):
+    """Narrow tags for an oracle failure: which clause of the property, and whether a name of the white-space family /
+    the empty name is involved."""
+    tags = []
+    text = " ".join(bad)
+    for key, tag in (("is not a", "not-identifier"), ("keyword", "keyword"), ("names two different", "not-injective"),
+                     ("same token", "token-clash"), ("not inverse", "lookup"), ("lookup raised", "lookup"),
+                     ("not invertible", "not-injective"), ("does not occur", "output-text"), ("declared", "output-text"),
+                     ("_is_valid_anml_name", "is-valid"), ("lacks '?'", "not-identifier")):
+        if key in text and tag not in tags:
+            tags.append(tag)
+    inv = [n for n in names if isinstance(n, str) and repr(n) in text]
+    if any(n == "" for n in inv):
+        tags.append("empty-name")
+    if any(n != "".join(n.split()) for n in inv):
+        tags.append("ws-name")
+        if any(n != n.rstrip() and n.rstrip() == "".join(n.split()) and n.rstrip() for n in inv):
+            tags.append("ws-trailing")
+        if any(re.fullmatch(r"[A-Za-z][A-Za-z0-9_]*\n", n) for n in inv):
+            tags.append("ws-trailing-single-newline")
+    return tags
+
+
 def expected_pddl_keywords(p, T):
     import unified_planning as up
     from unified_planning.model.contingent import ContingentProblem
@@ -479,6 +665,7 @@ def oracle_pddl(w, p, T):
     bad = []
     kws = expected_pddl_keywords(p, T)
     seen = {}
+    toks = {}
     for item, name in w.otn_renamings.items():
         cls = type(item).__name__
         body = name
@@ -487,13 +674,18 @@ def oracle_pddl(w, p, T):
                 bad.append("variable name %r lacks '?'" % name)
             body = name[1:]
         if not isinstance(body, str) or PDDL_ID.fullmatch(body) is None:
-            bad.append("%r is not a PDDL identifier" % name)
+            bad.append("%r (chosen for %s) is not a PDDL identifier" % (name, describe(item)))
         if body.lower() in kws or name.lower() in kws:
-            bad.append("%r is a PDDL keyword" % name)
+            bad.append("%r (chosen for %s) is a PDDL keyword" % (name, describe(item)))
         low = name.lower()
         if low in seen and not (seen[low] == item):
-            bad.append("%r names two different items" % name)
+            bad.append("%r names two different items (%s and %s)" % (name, describe(seen[low]), describe(item)))
         seen[low] = item
+        tok = token_form(name, True)
+        if tok in toks and not (toks[tok][0] == item) and toks[tok][1].lower() != low:
+            bad.append("%r (chosen for %s) and %r (chosen for %s) are the same token %r in PDDL text" % (
+                name, describe(item), toks[tok][1], describe(toks[tok][0]), tok))
+        toks.setdefault(tok, (item, name))
         try:
             if not (w.get_item_named(name) == item) or w.get_pddl_name(item) != name:
                 bad.append("lookups are not inverse at %r" % name)
@@ -513,17 +705,27 @@ def oracle_pddl(w, p, T):
 def oracle_anml(mapping, T):
     bad = []
     seen = {}
+    toks = {}
     for item, name in mapping.items():
         cls = type(item).__name__
         if cls in ("_BoolType", "_IntType", "_RealType"):
             continue
-        if ANML_ID.fullmatch(name) is None:
-            bad.append("%r is not an ANML identifier" % name)
+        if not isinstance(name, str) or ANML_ID.fullmatch(name) is None:
+            bad.append("%r (chosen for %s) is not an ANML identifier" % (name, describe(item)))
+            if not isinstance(name, str):
+                continue
+        tok = token_form(name, False)
         if name in T["ANML_KEYWORDS"] or name in PINNED_KEYWORDS["ANML_KEYWORDS"]:
-            bad.append("%r is an ANML keyword" % name)
+            bad.append("%r (chosen for %s) is an ANML keyword" % (name, describe(item)))
+        elif tok in T["ANML_KEYWORDS"] or tok in PINNED_KEYWORDS["ANML_KEYWORDS"]:
+            bad.append("%r (chosen for %s) reads as the ANML keyword %r" % (name, describe(item), tok))
         if name in seen and not (seen[name] == item):
-            bad.append("%r names two different items" % name)
+            bad.append("%r names two different items (%s and %s)" % (name, describe(seen[name]), describe(item)))
         seen[name] = item
+        if tok in toks and not (toks[tok][0] == item) and toks[tok][1] != name:
+            bad.append("%r (chosen for %s) and %r (chosen for %s) are the same token %r in ANML text" % (
+                name, describe(item), toks[tok][1], describe(toks[tok][0]), tok))
+        toks.setdefault(tok, (item, name))
     inv = {}
     for item, name in mapping.items():
         inv.setdefault(name, []).append(item)
@@ -566,6 +768,10 @@ def anml_output_check(mapping, p, text):
         inst += line.split(", ")
     if sorted(inst) != sorted(mapping[o] for o in p.all_objects):
         bad.append("declared instances %r differ from the mapping" % inst)
+    idents = set(re.findall(r"[A-Za-z_][A-Za-z0-9_]*", text))
+    for it in list(p.user_types) + list(p.actions) + list(p.fluents) + list(p.all_objects):
+        if mapping.get(it) not in idents:
+            bad.append("name %r chosen for %s does not occur in the ANML text as an identifier" % (mapping.get(it), describe(it)))
     return bad
 
 
@@ -655,6 +861,23 @@ def ser_acase(c):
 
 def is_ascii(s):
     return all(ord(ch) < 128 for ch in s)
+
+
+def case_names(c):
+    """Every string of a recorded case (names requested, returned, probed)."""
+    out = []
+
+    def walk(x):
+        if isinstance(x, str):
+            out.append(x)
+        elif isinstance(x, (list, tuple)):
+            for y in x:
+                walk(y)
+        elif isinstance(x, dict):
+            for y in x.values():
+                walk(y)
+    walk(c)
+    return out
 
 
 def pddl_case(rng, b, T, mode, stats):
@@ -785,11 +1008,13 @@ def anml_case(rng, b, T, mode, stats):
     c = {"start": start, "ops": ops, "obs": obs,
          "map": [(ids(i), n) for i, n in mapping.items() if ids(i) is not None], "valid_q": [], "direct": []}
     probes = rng.sample(b.pool, min(5, len(b.pool))) + [rng.choice(T["ANML_KEYWORDS"])] + [n for _, n in list(mapping.items())[-3:]]
+    probes += [n for _, n in b.ws][:6]
     for s in probes:
         v = bool(aw._is_valid_anml_name(s))
         c["valid_q"].append((s, v))
         if v != (ANML_ID.fullmatch(s) is not None and s not in T["ANML_KEYWORDS"]):
-            extra_bad.append("_is_valid_anml_name(%r) = %r" % (s, v))
+            extra_bad.append("_is_valid_anml_name(%r) = %r contradicts the definition (letter, then letters/digits/_; "
+                             "reserved words excluded)" % (s, v))
     named = [i for i in mapping.keys() if type(i).__name__ not in ("_BoolType", "_IntType", "_RealType")]
     for it in rng.sample(named, min(3, len(named))):
         c["direct"].append((ids(it), aw._get_anml_valid_name(it)))
@@ -803,7 +1028,7 @@ def anml_case(rng, b, T, mode, stats):
 # ------------------------------------------------------------------------------------------------ run
 def run(ctx):
     stats = {"pddl_items": 0, "pddl_renamed": 0, "pddl_counter_suffix": 0, "anml_items": 0, "anml_renamed": 0,
-             "skipped_problem_construction": 0, "shared_name_problems": 0, "temporal_problems": 0, "profiles": {}, "reserved_word_lookalikes": 0,
+             "skipped_problem_construction": 0, "ws_elements": {}, "ws_shapes": {}, "oracle_only_cases": 0, "shared_name_problems": 0, "temporal_problems": 0, "profiles": {}, "reserved_word_lookalikes": 0,
              "modes": {"pddl-writer": 0, "pddl-direct": 0, "anml-writer": 0, "anml-direct": 0}}
     # ---- translator tie (two readings of the constants)
     rc, tlog, T = run_translator()
@@ -831,15 +1056,21 @@ def run(ctx):
     allk = sorted(set(sum((T[t] for t in T if t.endswith("PDDL_KEYWORDS") or t == "PDDL3_KEYWORDS"), [])))
     T["_subsets"] = [sorted(rng.sample(allk, rng.randint(0, 25))) for _ in range(3)] + [[], allk, sorted(T["GENERAL_PDDL_KEYWORDS"])]
     n_problems = 100 if ctx.quick else 1800
+    # extra problems whose white-space family uses non-ASCII separators (NEL, NBSP, LS, PS): outside the Coq model's
+    # scope, run through the real writers and judged by the Python oracle only
+    n_wide = 16 if ctx.quick else 160
     cases, raw, oracle_bad = [], [], []
     nontrivial = set()
-    for k in range(n_problems):
+    for k in range(n_problems + n_wide):
         try:
             profile = PROFILES[k % len(PROFILES)]
             if profile is None:
                 profile = tuple(f for f in ("events", "processes", "durative_actions", "trajectory_constraints", "contingent")
                                 if rng.random() < 0.4)
-            b = build_problem(rng, kw_pool, not ctx.quick, profile)
+            ws_chars = WS_ASCII if k < n_problems else WS_WIDE + ["\n", " "]
+            b = build_problem(rng, kw_pool, not ctx.quick, profile, ws_chars, k)
+            for kind_, name_ in b.ws:
+                stats["ws_elements"][kind_] = stats["ws_elements"].get(kind_, 0) + 1
             stats["profiles"]["+".join(b.profile) or "none"] = stats["profiles"].get("+".join(b.profile) or "none", 0) + 1
             stats["reserved_word_lookalikes"] += len(b.forced)
         except Exception as e:  # a generated problem the library refuses (e.g. duplicate parameter names) is skipped
@@ -858,15 +1089,22 @@ def run(ctx):
                          {"names": problem_names(b.p), "traceback": traceback.format_exc()[-1500:]}, True)
                 continue
             txt = json.dumps(c, default=str)
-            if not is_ascii(txt):
+            r = {"kind": kind, "mode": mode, "shared_names": b.shared, "profile": list(b.profile),
+                 "element_names": problem_names(b.p), "ws_family": [list(x) for x in b.ws], "case": c}
+            ftags = failure_tags(bad, problem_names(b.p) + [n for _, n in b.ws] + b.pool + case_names(c)) if bad else []
+            if not is_ascii(json.dumps(c, default=str, ensure_ascii=False)):
+                # names outside the ASCII scope of the model: the real writers were run, the oracle judges
+                stats["oracle_only_cases"] += 1
+                if bad:
+                    oracle_bad.append((None, r, bad, ftags))
                 continue
             stats["modes"]["%s-%s" % (kind, mode)] += 1
-            raw.append({"kind": kind, "mode": mode, "shared_names": b.shared, "profile": list(b.profile), "case": c})
+            raw.append(r)
             cases.append(ser_pcase(c, kwt) if kind == "pddl" else ser_acase(c))
             if renamed > 0:
                 nontrivial.add(hashlib.sha1(txt.encode()).hexdigest())
             if bad:
-                oracle_bad.append((len(cases) - 1, bad))
+                oracle_bad.append((len(cases) - 1, r, bad, ftags))
 
     bad_idx = []
     coq_error = None
@@ -882,30 +1120,35 @@ def run(ctx):
     except Exception as e:
         coq_error = str(e)[-1500:]
     t_coq = round(time.time() - ctx.t0 - t_gen, 1)
-    oracle_map = dict(oracle_bad)
+    oracle_map = dict((i, (bad, ftags)) for i, _, bad, ftags in oracle_bad if i is not None)
     for i in bad_idx:
         r = raw[i]
         model = ctx.coq_show("model_answer c", imports=IMPORTS, preamble=kwt.preamble() + "Definition c : case := %s.\n" % cases[i])
-        ctx.fail("corr", "%s writer (%s): implementation and model disagree on the chosen names (corr:C38:%s)" % (
-                     r["kind"].upper(), r["mode"], "pddl_run" if r["kind"] == "pddl" else "anml_run_from"),
-                 ["c38", r["kind"], r["mode"]] + (["shared-names"] if r["shared_names"] else []),
-                 {"case": r, "model": model, "oracle": oracle_map.get(i, []),
-                  "theorem_or_corr": "corr:C38:%s" % r["kind"]}, bool(oracle_map.get(i)))
-    for i, bad in oracle_bad:
-        if i in bad_idx:
+        obad, otags = oracle_map.get(i, ([], []))
+        ctx.fail("corr", "%s writer (%s): implementation and model disagree on the chosen names (corr:C38:%s)%s" % (
+                     r["kind"].upper(), r["mode"], "pddl_run" if r["kind"] == "pddl" else "anml_run_from",
+                     "; property C38 fails on the implementation: " + "; ".join(obad[:3]) if obad else ""),
+                 ["c38", r["kind"], r["mode"]] + (["shared-names"] if r["shared_names"] else []) + otags,
+                 {"case": r, "model": model, "oracle": obad,
+                  "theorem_or_corr": "corr:C38:%s" % r["kind"]}, bool(obad))
+    for i, r, bad, ftags in oracle_bad:
+        if i is not None and i in bad_idx:
             continue
-        r = raw[i]
         ctx.fail("oracle", "%s writer (%s): property C38 fails on the implementation: %s" % (r["kind"].upper(), r["mode"], "; ".join(bad[:3])),
                  ["c38", r["kind"], r["mode"], "oracle"] + (["shared-names"] if r["shared_names"] else [])
-                 + ["feature:" + f for f in r["profile"]],
+                 + ["feature:" + f for f in r["profile"]] + ftags + ([] if i is not None else ["outside-model-scope"]),
                  {"case": r, "oracle": bad}, True)
     if coq_error:
         ctx.fail("corr", "the correspondence cases could not be evaluated: %s" % coq_error[-300:], ["c38", "coq-error"],
                  {"log": coq_error}, False)
     if not translator_ok:
+        # the tie is broken; the search above ran the real writers all the same: attach the smallest failing input found
+        found = sorted((f for f in ctx.failures if f.property_fails), key=lambda f: len(json.dumps(f.payload, default=str)))
         ctx.fail("translator", "tools/gen_keywords.py failed closed (rc=%s): the name functions / tables of the writers "
-                 "no longer have the translated shape" % rc, ["c38", "translator"], {"log": tlog},
-                 bool(ctx.failures) and any(f.property_fails for f in ctx.failures))
+                 "no longer have the translated shape%s" % (
+                     rc, "; failing input found by running the real writers: " + found[0].what if found else ""),
+                 ["c38", "translator"] + ([t for t in found[0].tags if t not in ("c38", "translator")] if found else []),
+                 {"log": tlog, "failing_input": found[0].payload if found else None}, bool(found))
     if dropped:
         ctx.fail("oracle", "reserved words of the reference snapshot are no longer in the writers' keyword tables: %s" % dropped[:6],
                  ["c38", "keyword-dropped"], {"dropped": dropped},
